@@ -1321,3 +1321,99 @@ def u_client(ip: Interp, th: ClientTheory):
             ip.require(s, "start:no-connection:no-handshake,no-command", z3.BoolVal(not hs and not [e for e in s.trace if e[0] == "interact"]), P)
         else:
             ip.require(s, "start:exactly-one-handshake,before-the-first-command;ends-only-when-disconnected", z3.And(z3.BoolVal(len(hs) == 1), z3.Not(s.sh["_connected"].t)), P)
+
+
+# ======================================================================================================
+# helpers.get_first_doc_line   (C16: "-h/--help describing it" - computing the help text of a member must never fail, whatever
+# its docstring; the contract `c_first_doc_line` used by add_function_command / add_property_command is verified here)
+# ======================================================================================================
+class LinesV(V):
+    """result of str.split(sep[, n]) / str.splitlines(): only its length class matters here"""
+
+    def __init__(self, src_t, may_be_empty: bool, how: str):
+        self.src_t, self.may_be_empty, self.how = src_t, may_be_empty, how
+
+
+class DocTheory(ControlTheory):
+    def call_method(self, st, fr, recv, name, pos, kws, rest_kw, node):
+        val = self.ip.deref(st, recv)
+        if isinstance(val, StrV) and name == "split":
+            return [(st, LinesV(val.t, False, "split"))]  # str.split(sep) always yields at least one piece
+        if isinstance(val, StrV) and name == "splitlines":
+            return [(st, LinesV(val.t, True, "splitlines"))]  # ''.splitlines() == []
+        return super().call_method(st, fr, recv, name, pos, kws, rest_kw, node)
+
+    def subscript(self, st, fr, c, key):
+        if isinstance(c, LinesV) and isinstance(key, IntV) and z3.is_int_value(z3.simplify(key.t)) and z3.simplify(key.t).as_long() == 0:
+            first = StrV(z3.Function("first_piece_" + c.how, S, S)(c.src_t))
+            if not c.may_be_empty:
+                return [(st, first)]
+            out = []
+            for s, b in self.ip.branch(st, sym.str_nonempty(c.src_t), "nonempty"):
+                out.append((s, first) if b else (s, Exit(Exit.RAISE, ExcV("IndexError", []))))
+            return out
+        return super().subscript(st, fr, c, key)
+
+
+def _doc_unit(ip: Interp, th: DocTheory):
+    P = ("C16",)
+    obj = RefV(fresh("a_member", Ref))
+    doc = fresh("docstring", S)
+
+    def getdoc(s, fr, pos, kws, node):
+        a = s.fork()
+        a.tags.append("doc:none")
+        b = s.fork()
+        b.tags.append("doc:text")  # any string, the empty one included (inspect.getdoc of a whitespace-only docstring is '')
+        return [(a, NoneV()), (b, StrV(doc))]
+
+    th.hooks["getdoc"] = getdoc
+    st = th.initial()
+    for s, v in ip.exec_function(st, ip.repo.get("helpers.get_first_doc_line"), None, {"obj": obj}):
+        if isinstance(v, Exit):
+            ip.require(s, f"noraise:the-help-text-of-a-member-can-always-be-computed(any-docstring,also-empty):{v.val.cls}", z3.BoolVal(False), P)
+            continue
+        ip.require(s, "post:None-without-docstring-else-a-string", z3.BoolVal(isinstance(v, NoneV) == ("doc:none" in s.tags) and isinstance(v, (NoneV, StrV))), P)
+
+
+UNITS.append(Unit("helpers.get_first_doc_line", _doc_unit, ("C16",), ["helpers.get_first_doc_line"], theory_factory=DocTheory,
+                  trusted=TRUSTED2 + ["inspect.getdoc returns None or a (possibly empty) string; str.split(sep) yields at least one piece, ''.splitlines() is empty"]))
+
+
+# ---- the concrete servers start a server whose connections go to the callback they are given (contract assumed in
+# ---- ControlServer.serve_forever's unit for the abstract `_get_server_instance`) ---------------------------------------
+@srv_unit("server.TCP/UnixControlServer._get_server_instance", ("C16", "C18"), ["server.TCPControlServer._get_server_instance", "server.UnixControlServer._get_server_instance"])
+def u_get_server_instance(ip: Interp, th: ServerTheory):
+    P = ("C16", "C18")
+    for cls_, starter, fields in (("TCPControlServer", "start_server", {"_host": RefV(fresh("host", Ref)), "_port": RefV(fresh("port", Ref))}),
+                                  ("UnixControlServer", "self._start_unix_server", {"_socket_path": RefV(fresh("socket_path", Ref))})):
+        st = th.initial()
+        st.sh.update(fields)
+        cb = RefV(fresh("a_client_connected_cb", Ref))
+        started = fresh("started_server", Ref)
+
+        def start(s, fr, pos, kws, node, starter=starter):
+            return [(s, CoroV("builtin", "start_server", {"pos": list(pos), "kws": dict(kws)}))]
+
+        th.hooks[starter] = start
+
+        def aw(s, fr, v, node):
+            s.trace.append(("start_server", v.args["pos"], v.args["kws"]))
+            ok = s.fork()
+            bad = s.fork()
+            e = ExcV("OSError", [])
+            e.origin = "server"
+            return [(ok, RefV(started)), (bad, Exit(Exit.RAISE, e))]
+
+        th.hooks["await:start_server"] = aw
+        fi = ip.repo.get(f"server.{cls_}._get_server_instance")
+        fr0 = Frame(None, fi.module, SelfV(cls_), 0, qual="@unit")
+        for s, v in ip.run_repo(st, fr0, fi, SelfV(cls_), {"client_connected_cb": cb, "kwargs": KwV({})}, awaited=True):
+            ss = [e for e in s.trace if e[0] == "start_server"]
+            if isinstance(v, Exit):
+                ip.require(s, f"{cls_}:only-the-failure-of-the-start-escapes", z3.BoolVal(v.val.cls == "OSError" and len(ss) == 1), P)
+                continue
+            ok = len(ss) == 1 and len(ss[0][1]) >= 2 and isinstance(ss[0][1][0], RefV)
+            addr_ok = ok and all(isinstance(a, RefV) for a in ss[0][1][1:]) and [a.t for a in ss[0][1][1:]] == [f.t for f in fields.values()] if ok else False
+            ip.require(s, f"{cls_}:starts-exactly-one-server-with-the-given-connection-callback-at-its-own-address-and-returns-it",
+                       z3.And(z3.BoolVal(bool(addr_ok)), ss[0][1][0].t == cb.t, v.t == started) if ok and isinstance(v, RefV) else z3.BoolVal(False), P)
